@@ -5,6 +5,7 @@ import (
 	"math/rand"
 	"os"
 	"sort"
+	"strings"
 
 	"verif/harness/internal/drive"
 	"verif/harness/internal/prog"
@@ -44,6 +45,16 @@ func timeDependent(ev string) bool {
 // TokenGameRound: TLC enumerates schedules for ps, the real engine replays
 // them, TLC validates the recorded runs; rejections are classified.
 func (c *Ctx) TokenGameRound(fs []Finding, ps []*prog.Program, o RoundOpts) error {
+	// experiments only (registered commands never set it): run the named rounds alone
+	if only := os.Getenv("VERIF_ROUNDS"); only != "" {
+		found := false
+		for _, l := range strings.Split(only, ",") {
+			found = found || l == o.Label
+		}
+		if !found {
+			return nil
+		}
+	}
 	if o.ExportModule == "" {
 		o.ExportModule = "TokenGameExport"
 	}
@@ -135,6 +146,39 @@ func (c *Ctx) TokenGameRound(fs []Finding, ps []*prog.Program, o RoundOpts) erro
 		}
 	}
 	sort.Ints(rejected)
+	// rejected runs of programs with boundary events: are they at least behaviours of the
+	// AS-IS game (the recorded deviations F10.. and nothing else)?
+	asisAcc := map[int]bool{}
+	asisSeen := map[int]bool{}
+	asisPass := func(set map[int][]drive.Rec, prog func(int) int) {
+		sub := map[int][]drive.Rec{}
+		for r, log := range set {
+			if ps[prog(r)].HasTag("boundary") {
+				sub[r] = log
+			}
+		}
+		if len(sub) == 0 {
+			return
+		}
+		c.AsIs = true
+		a, _, _, err := c.ValidateTrace(o.TraceModule, ps, sub, o.Filter, prog, "")
+		c.AsIs = false
+		if err != nil {
+			c.Infraf("%s as-is validation: %v", o.Label, err)
+			return
+		}
+		for r := range sub {
+			asisSeen[r] = true
+			asisAcc[r] = a[r]
+		}
+	}
+	{
+		rej := map[int][]drive.Rec{}
+		for _, r := range rejected {
+			rej[r] = runs[r]
+		}
+		asisPass(rej, progOf)
+	}
 	// confirmation pass for time-dependent rejections
 	// Time-dependent rejections are re-run slowly before they count.  The
 	// re-run set is capped (a tree on which many runs hang would otherwise
@@ -156,7 +200,15 @@ func (c *Ctx) TokenGameRound(fs []Finding, ps []*prog.Program, o RoundOpts) erro
 				tags = append(tags, "failnode:"+role)
 			}
 		}
-		return Rejection{Prop: c.Prop, Tags: tags, Ev: f.Ev, Node: f.Node, NodeKind: kind, Detail: detail(p, o.Filter(p, runs[r]), f)}
+		rej := Rejection{Prop: c.Prop, Tags: tags, Ev: f.Ev, Node: f.Node, NodeKind: kind, Detail: detail(p, o.Filter(p, runs[r]), f)}
+		if asisSeen[r] {
+			v := asisAcc[r]
+			rej.AsIsAccepted = &v
+			if !v {
+				rej.Detail += "[not even a behaviour of the as-is game] "
+			}
+		}
+		return rej
 	}
 	var confirm []int
 	{
@@ -224,6 +276,7 @@ func (c *Ctx) TokenGameRound(fs []Finding, ps []*prog.Program, o RoundOpts) erro
 				confirmed[r] = true
 				runs[r] = cruns[i]
 				fails[r] = cfails[i]
+				asisPass(map[int][]drive.Rec{r: cruns[i]}, progOf)
 			} else {
 				unconfirmed++
 				if unconfirmed <= 3 {
@@ -245,6 +298,9 @@ func (c *Ctx) TokenGameRound(fs []Finding, ps []*prog.Program, o RoundOpts) erro
 		}
 		p := ps[progOf(r)]
 		rej := mkRej(r)
+		if os.Getenv("VERIF_DEBUG") != "" {
+			fmt.Fprintf(os.Stderr, "DEBUG %s run %d prog %s ev=%s node=%s asis=%v seen=%v match=%v :: %s\n", o.Label, r, p.Name, f.Ev, f.Node, asisAcc[r], asisSeen[r], MatchFinding(fs, rej) != nil, rej.Detail)
+		}
 		c.Reject(fs, rej, map[string]any{"round": o.Label, "program": p, "schedule": scheds[r], "log": runs[r], "job": job.Opts})
 	}
 	return nil
@@ -271,6 +327,29 @@ func detail(p *prog.Program, flog []drive.Rec, f Failure) string {
 		case "fin":
 			s += fmt.Sprintf("fin(ok=%v,pending=%d) ", r.Ok, r.N)
 		}
+	}
+	// boundary events that never observed one of their own events in this run
+	var unfired []string
+	for _, n := range p.Nodes {
+		if n.Kind != "boundary" {
+			continue
+		}
+		fired := false
+		for _, r := range flog {
+			if r.Ev == "observed" && r.Node == n.Id && len(r.Flows) > 0 {
+				for _, e := range n.Evs {
+					if e.K == r.Kind && e.Ref == r.Flows[0] {
+						fired = true
+					}
+				}
+			}
+		}
+		if !fired {
+			unfired = append(unfired, n.Id)
+		}
+	}
+	if len(unfired) > 0 {
+		s += fmt.Sprintf("unfired(%s) ", strings.Join(unfired, ","))
 	}
 	return fmt.Sprintf("rejected at %s %s; %s", f.Ev, f.Node, s)
 }
